@@ -30,3 +30,25 @@ impl AnnotationStore {
         })
     }
 }
+
+/// Verification hook: an optional process-global callback invoked at the points where shared
+/// interior-mutable state (serialisation mode, changed flags) is about to be read or written.
+/// `None` unless a test scheduler installs one, in which case it may block the calling thread.
+static YIELD_HOOK: std::sync::RwLock<Option<Box<dyn Fn(&'static str) + Send + Sync>>> =
+    std::sync::RwLock::new(None);
+
+/// Install (or clear) the yield hook.
+pub fn set_yield_hook(hook: Option<Box<dyn Fn(&'static str) + Send + Sync>>) {
+    if let Ok(mut guard) = YIELD_HOOK.write() {
+        *guard = hook;
+    }
+}
+
+/// Called at the entry of the accessors of shared interior-mutable state, before any lock is taken.
+pub(crate) fn yield_point(tag: &'static str) {
+    if let Ok(guard) = YIELD_HOOK.read() {
+        if let Some(hook) = guard.as_ref() {
+            hook(tag);
+        }
+    }
+}
